@@ -69,7 +69,7 @@ pub enum Case {
 }
 
 /// (url as written, file name, default namespace)
-const URLS: &[(&str, &str, &str)] = &[("lib", "_lib.scss", "lib"), ("dir/lib", "dir/_lib.scss", "lib"), ("_lib", "_lib.scss", "lib"), ("lib.scss", "lib.scss", "lib"), ("dir/sub/lib", "dir/sub/lib.scss", "lib"), ("./lib", "_lib.scss", "lib")];
+const URLS: &[(&str, &str, &str)] = &[("lib", "_lib.scss", "lib"), ("dir/lib", "dir/_lib.scss", "lib"), ("_lib", "_lib.scss", "lib"), ("lib.scss", "lib.scss", "lib"), ("dir/sub/lib", "dir/sub/lib.scss", "lib"), ("./lib", "_lib.scss", "lib"), ("lib.v2.scss", "lib.v2.scss", "lib"), ("dir/lib.min", "dir/_lib.min.scss", "lib")];
 
 fn lib_source() -> String {
     let mut s = String::new();
@@ -276,7 +276,7 @@ impl Prop for C37 {
         C37
     }
     fn rule(&self) -> String {
-        "a library module (three variables, two of them !default, a function and a mixin per variable) reached by 6 URL spellings (partial, sub-directories, explicit extension, ./), used directly or through a middle module that forwards it plainly, with a prefix, with show or hide lists of 1..3 members, or both; @use with no `as`, `as name` or `as *`; `with` maps of 0..2 entries hitting !default, non-default and unknown variables, duplicates and null values; 1..4 accesses per case, each compiled on its own: variable, function or mixin, by the right, the default, a wrong or no namespace, with the prefixed or the unprefixed spelling. Built-in cases: configuring a sass: module, assigning one of its variables. Oracle: a reference model of configuration (values, or error), namespaces and forward filters gives the expected value or `error` for every access. Non-trivial: the @use rule is valid and at least one access goes through a forward rule, an `as` clause or a configuration; distinct by case".into()
+        "a library module (three variables, two of them !default, a function and a mixin per variable) reached by 8 URL spellings (partial, sub-directories, explicit extension, ./, two dots in the last segment), used directly or through a middle module that forwards it plainly, with a prefix, with show or hide lists of 1..3 members, or both; @use with no `as`, `as name` or `as *`; `with` maps of 0..2 entries hitting !default, non-default and unknown variables, duplicates and null values; 1..4 accesses per case, each compiled on its own: variable, function or mixin, by the right, the default, a wrong or no namespace, with the prefixed or the unprefixed spelling. Built-in cases: configuring a sass: module, assigning one of its variables. Oracle: a reference model of configuration (values, or error), namespaces and forward filters gives the expected value or `error` for every access. Non-trivial: the @use rule is valid and at least one access goes through a forward rule, an `as` clause or a configuration; distinct by case".into()
     }
     fn assumptions(&self) -> Vec<String> {
         vec![
